@@ -114,6 +114,12 @@ def _gen_op(g, kind, cols, stats):
         if c == "code" and g.chance(0.5):
             vals = [int(v) for v in vals]
             stats.append("numeric_looking_values")
+        elif g.chance(0.2) and "duration" in cols:
+            c = "duration"
+            vals = g.sample([1, 0.5, 2.5], g.randint(1, 2))       # the integer 1 must remove '1' / 1.0
+            stats.append("numeric_looking_values")
+        elif g.chance(0.15):
+            vals = vals + ["nan"]                                   # must not remove rows whose cell is n/a
         p = {"column_name": c, "remove_values": vals}
     elif kind == "remove_columns":
         names = g.sample(other, g.randint(1, len(other))) if other else []
@@ -397,11 +403,17 @@ def _model_op(op, t):
         c = p["column_name"]
         if c not in cols:
             return "full", t
-        if any(not isinstance(v, str) for v in p["remove_values"]) or "n/a" in p["remove_values"]:
+        if "n/a" in p["remove_values"]:
             return "skip", None
-        if any(_num(x) is not None for x in col(c)):
-            return "skip", None      # numeric(-looking) columns: the docs do not fix how values compare
         i = cols.index(c)
+        cells = col(c)
+        if c not in t.get("_text", ()) and all(_num(x) is not None for x in cells) \
+                and all(not isinstance(v, str) for v in p["remove_values"]):
+            # an all-numeric column and numeric values: numeric equality (1 removes 1.0)
+            vals = [float(v) for v in p["remove_values"]]
+            return "full", {"columns": cols, "rows": [r for r in rows if _num(r[i]) not in vals]}
+        if any(not isinstance(v, str) for v in p["remove_values"]) or any(_num(x) is not None for x in cells):
+            return "skip", None      # text against numbers: the docs do not fix how such values compare
         return "full", {"columns": cols, "rows": [r for r in rows if r[i] not in p["remove_values"]]}
     if k == "remove_columns":
         keep = [i for i, c in enumerate(cols) if c not in p["column_names"]]
@@ -535,6 +547,38 @@ def _model_op(op, t):
             for q in pool:
                 if q[ai] not in names:
                     return "a new row has anchor value %r, expected one of %s" % (q[ai], names)
+            # the new rows themselves: onset = parent onset + terms, duration = sum of terms (n/a if a named column is
+            # n/a in the parent row), anchor = event name, copied columns from the parent, everything else n/a
+            for ev, e in p["new_events"].items():
+                for r in rows:
+                    on_v = _num(r[oi])
+                    for s2 in e["onset_source"]:
+                        on_v = None if on_v is None else (on_v + s2 if not isinstance(s2, str) else
+                                                          (None if _num(r[cols.index(s2)]) is None else on_v + _num(r[cols.index(s2)])))
+                    if on_v is None:
+                        continue
+                    du_v = 0.0
+                    for s2 in e["duration"]:
+                        if du_v is None:
+                            break
+                        if isinstance(s2, str):
+                            du_v = None if _num(r[cols.index(s2)]) is None else du_v + _num(r[cols.index(s2)])
+                        else:
+                            du_v += s2
+                    want = ["n/a"] * len(want_cols)
+                    want[oi] = "%g" % on_v
+                    want[di] = "n/a" if du_v is None else "%g" % du_v
+                    for cc in e.get("copy_columns", []):
+                        want[want_cols.index(cc)] = r[cols.index(cc)]
+                    want[ai] = ev
+                    hit = None
+                    for q in pool:
+                        if all(_cell_eq(x, y) for x, y in zip(want, q)):
+                            hit = q
+                            break
+                    if hit is None:
+                        return "expected a new row %s (event %s of parent %s) in the result, rows not accounted for: %s" % (want, ev, r, pool[:4])
+                    pool.remove(hit)
             return None
         return "structural", checker
     return "skip", None
@@ -702,11 +746,23 @@ def _run_ops(d, df, viol, where, ops):
 
 def _check_model(sc, ti, got, viol, probe):
     t = copy.deepcopy(sc["tables"][ti])
+    # columns the library reads as text: any cell that is not a number (n/a included) makes the whole column text
+    t["_text"] = sorted(c for i, c in enumerate(t["columns"]) if any(_num(r[i]) is None for r in t["rows"]))
     mode = "full"
     for op in sc["ops"]:
+        text_cols = set(t.get("_text", ()))
         kind, out = _model_op(op, t)
         if kind == "skip":
             return
+        if kind == "full":
+            if op["operation"] == "remap_columns":
+                text_cols |= set(op["parameters"]["source_columns"]) | set(op["parameters"]["destination_columns"])
+            if op["operation"] == "rename_columns":
+                text_cols = {op["parameters"]["column_mapping"].get(c, c) for c in text_cols}
+            if op["operation"] == "factor_column":
+                pass
+            out = dict(out)
+            out["_text"] = sorted(text_cols)
         if kind == "structural":
             if op is not sc["ops"][-1]:
                 return           # cannot continue the model past a structurally-modelled operation
